@@ -91,9 +91,10 @@ append_derivation(CPPType *base, CPPVisibility vis, bool is_virtual) {
       def = base->as_typedef_type();
     }
 
-    if (vis == V_unknown && base->as_extension_type() != nullptr) {
-      // Default visibility.
-      if (base->as_extension_type()->_type == T_class) {
+    if (vis == V_unknown) {
+      // Default visibility: a class derives privately, a struct publicly,
+      // whatever the base is declared as.
+      if (_type == T_class) {
         vis = V_private;
       } else {
         vis = V_public;
